@@ -24,6 +24,9 @@ type C13Case struct {
 	Route   string            `json:"route,omitempty"` // direct | json | ubjson | cborl
 	Prefill bool              `json:"prefill,omitempty"`
 	Note    string            `json:"note,omitempty"`
+	// KeyCache > 0: the unfolder's key cache is enabled with this capacity (the
+	// cache must never change a result)
+	KeyCache int `json:"key_cache,omitempty"`
 }
 
 // feedEvents delivers the stream to the unfolder: directly, or encoded with a
@@ -123,6 +126,10 @@ func checkC13(ci any, info *CaseInfo) string {
 		u, err := newUnfolder(target.Interface())
 		if err != nil {
 			return fmt.Sprintf("NewUnfolder fails for the supported type %s: %v", c.Type, err)
+		}
+		if c.KeyCache > 0 {
+			info.Class("key_cache")
+			u.EnableKeyCache(c.KeyCache)
 		}
 		o, where := feedEvents(c.Route, c.Evs, u)
 		desc := fmt.Sprintf("type %s, route %s, stream %v", c.Type, c.Route, truncEvs(c.Evs))
@@ -362,7 +369,11 @@ func drawC13(t *rapid.T) any {
 	r := &renderer{t: t, route: route, perturb: true}
 	var evs []model.Ev
 	r.render(v, &evs)
-	return &C13Case{Mode: "typed", Type: &g.Type, Evs: evs, Route: route, Prefill: rapid.Bool().Draw(t, "prefill")}
+	c := &C13Case{Mode: "typed", Type: &g.Type, Evs: evs, Route: route, Prefill: rapid.Bool().Draw(t, "prefill")}
+	if rapid.IntRange(0, 4).Draw(t, "keycache") == 0 {
+		c.KeyCache = rapid.SampledFrom([]int{1, 2, 8}).Draw(t, "keycachecap")
+	}
+	return c
 }
 
 // enumC13: the full numeric conversion matrix — every numeric event kind x
@@ -449,7 +460,7 @@ func enumC13(emit func(c any) bool) {
 func init() {
 	register(&Property{
 		ID:            "C13",
-		Rule:          "(a) generic: gen.Stream (strings/keys by value or by reference, announced/unknown lengths, element-type hints, extended events) into *interface{}; oracle = independently built generic Go value (typed slices/maps where a BaseType is announced, last duplicate wins), compared with exact Go types. (b) typed: generated supported Go type and value, rendered from the fold model as a PERTURBED stream — every number through any numeric event kind that holds it (all integer widths, float32<->float64, integers for integral floats, integral floats for small integers on direct delivery), strings/keys by value or reference, members permuted, members omitted, scalar members duplicated, unknown members of every shape (scalars, by-reference strings, nested objects with keys, arrays, typed arrays) at drawn positions and depths — delivered directly or through the json/ubjson/cborl encoder+parser into a fresh or sentinel-prefilled target; oracle = reference model of assignment (gomodel.Assign) applied to the tree of the very same stream, every event method must return nil, unfolder stacks idle. Deterministic part: the full numeric conversion matrix (11 integer event kinds + 2 float kinds x 12 numeric target kinds x boundary values that fit) as scalar target, struct field, slice element and map value, and through the primitive user unfolder of the target kind (as target, []*T element, struct field and map value). non-trivial = at least one unknown member or one width conversion (generic mode: more than one event); distinct by case hash",
+		Rule:          "(a) generic: gen.Stream (strings/keys by value or by reference, announced/unknown lengths, element-type hints, extended events) into *interface{}; oracle = independently built generic Go value (typed slices/maps where a BaseType is announced, last duplicate wins), compared with exact Go types. (b) typed: generated supported Go type and value, rendered from the fold model as a PERTURBED stream — every number through any numeric event kind that holds it (all integer widths, float32<->float64, integers for integral floats, integral floats for small integers on direct delivery), strings/keys by value or reference, members permuted, members omitted, scalar members duplicated, unknown members of every shape (scalars, by-reference strings, nested objects with keys, arrays, typed arrays) at drawn positions and depths — delivered directly or through the json/ubjson/cborl encoder+parser into a fresh or sentinel-prefilled target, 1 in 5 with the unfolder's key cache enabled; oracle = reference model of assignment (gomodel.Assign) applied to the tree of the very same stream, every event method must return nil, unfolder stacks idle. Deterministic part: the full numeric conversion matrix (11 integer event kinds + 2 float kinds x 12 numeric target kinds x boundary values that fit) as scalar target, struct field, slice element and map value, and through the primitive user unfolder of the target kind (as target, []*T element, struct field and map value). non-trivial = at least one unknown member or one width conversion (generic mode: more than one event); distinct by case hash",
 		New:           func() any { return &C13Case{} },
 		Draw:          drawC13,
 		Check:         checkC13,
